@@ -81,6 +81,29 @@ func (c *c04run) applyOps(n *Node, probe bool) (alive bool, reorgOps map[int]boo
 				return false, reorgOps, opRange
 			}
 			_ = err // errors are legal after an injected failure or for non-parent-closed (shrunk) plans
+		case "headers", "receipts", "pivot":
+			// fast sync: header chain, bodies + receipts, state download + pivot commit
+			var died, pan string
+			switch op.Kind {
+			case "headers":
+				_, _, died, pan = n.InsertHeaders(op.Blocks)
+			case "receipts":
+				_, _, died, pan = n.InsertReceipts(op.Blocks)
+				c.col.Inc("op_insert_receipts")
+			default:
+				var err error
+				_, err, died, pan = n.SyncState(op.Blocks[0], op.Arg)
+				if err == nil && died == "" && pan == "" && probe {
+					c.col.Inc("probe_fast_sync_pivot_committed")
+				}
+			}
+			if pan != "" {
+				c.add("import-panic", i, "%s panicked: %s", op.Kind, pan)
+				return false, reorgOps, opRange
+			}
+			if died != "" {
+				return false, reorgOps, opRange
+			}
 		case "restart":
 			if d, pan := n.Stop(); pan != "" {
 				c.add("stop-panic", i, "Stop panicked: %s", pan)
@@ -210,7 +233,7 @@ func execC04(p *Plan, col *kernel.Collector) []kernel.Violation {
 	} else {
 		srng := kernel.NewRNG(p.SampleSeed)
 		for i, r := range opRange {
-			window := reorgOps[i] || p.Ops[i].Kind == "restart"
+			window := reorgOps[i] || p.Ops[i].Kind == "restart" || p.Ops[i].Kind == "pivot" || p.Ops[i].Kind == "receipts"
 			for w := r[0]; w <= r[1]; w++ {
 				if window {
 					sel[w] = 2
@@ -243,6 +266,9 @@ func execC04(p *Plan, col *kernel.Collector) []kernel.Violation {
 			}
 			c.checkImage(img, w, tag, mode == 2)
 			col.Inc("crash_images_checked")
+			if strings.HasSuffix(tag, ":pivot") || strings.HasSuffix(tag, ":receipts") || strings.HasSuffix(tag, ":headers") {
+				col.Inc("fault_crash_inside_fast_sync")
+			}
 			if mode == 2 {
 				col.Inc("crash_images_refed")
 			}
@@ -471,7 +497,24 @@ func (c *c04run) checkImage(img map[string][]byte, w int, tag string, refeed boo
 	}
 	// feeding the original blocks again converges to the crash-free head
 	for i, op := range c.p.Ops {
-		if op.Kind != "insert" {
+		switch op.Kind {
+		case "headers", "receipts", "pivot":
+			var pan string
+			switch op.Kind {
+			case "headers":
+				_, _, _, pan = insertHeaders(u, bc, op.Blocks)
+			case "receipts":
+				_, _, _, pan = insertReceipts(u, bc, op.Blocks)
+			default:
+				_, _, _, pan = syncState(u, bc, ov, op.Blocks[0], op.Arg)
+			}
+			if pan != "" {
+				c.add("refeed-panic", w, "[%s] re-feeding op %d (%s) panicked: %s", tag, i, op.Kind, firstLines(pan, 12))
+				return
+			}
+			continue
+		case "insert":
+		default:
 			continue
 		}
 		blocks := make(types.Blocks, len(op.Blocks))
@@ -529,6 +572,11 @@ func GenC04(rng *kernel.RNG, env *kernel.Env, k int) any {
 	}
 	p.Nodes = []NodeCfg{cfg}
 	p.Ops = GenDeliveries(rng, &p.Recipe, 0, 0.08, 0.08, 6)
+	if k%5 == 4 {
+		// the node fast-syncs first: crashes land inside the header chain, the receipt chain,
+		// the state download and right after the pivot became the head
+		p.Ops = append(genFastSync(rng, &p.Recipe, 0), p.Ops...)
+	}
 	if env.Thorough() {
 		p.AllImages = true
 	}
